@@ -1,6 +1,7 @@
 SPECIFICATION MSpec
 CONSTANTS
   Shapes <- MCShapes
+  Journal = "disk"
   Mode = "required"
 INVARIANT AtomicAlways
 INVARIANT OutcomeMatches
